@@ -130,9 +130,10 @@ def run_case(ctx, g, rng):
         if rng.random() < 0.5:
             m[rng.choice(known)] = rng.choice(unknown)
     # the converter may have a past (registered record by record, grown through merges) and any delimiter
-    c, how = gen.build(api, recs, d, rng)
+    c, how = gen.build(api, recs, d, rng, share_lists=True)
     S.counters[f"wl:build:{how}"] += 1
     o = call(curies.remap_curie_prefixes, c, dict(m))
+    call(curies.remap_curie_prefixes, c, dict(m))  # the same call again on the same object: judged on its own
 
     def cls(x):
         ow = sp.prefix_owner(x)
